@@ -122,13 +122,17 @@ _Bool spec_all_differ_but(const struct Position *p, int but)
     kwd = dict(common); kwd['pre_text'] = HDECL + '_Bool G_TFV;\n'
     out.append(Job('is_draw', TUS7, [DRW], h, 'h_h', contracts={DRW: c_drwa, TF: c_tfa}, nobody=[TF], enforce=DRW, replace=[TF],
                    unwindset=loops_unwind([('verif_find', 6)]), timeout=1800, note='is_draw == fifty-move rule or (the value of) threefold_repetition or insufficient material; threefold_repetition replaced by the frame part of its proven contract with an abstract result', **kwd))
+    # each scan is checked in two groups, split on which ghost witness is in force (same contract, same loop contract, smaller case space):
+    #   /witnessed : some earlier occurrence(s) are witnessed (G_ONE or G_TWO)  -> the "answers true" direction
+    #   /absent    : no witness flag set; G_NONE / G_AM1 (all earlier entries, but at most one, differ) -> the "answers false" direction
     for fn, nm, cc, lc in ((REP, 'is_repeated', c_rep, lc_rep), (TF, 'threefold_repetition', c_tf, lc_tf)):
-        h = HSPEC + ALLD + ND + ('void h_h(void) { struct Position P = nondet_Position(); W_P = P;\n'
-                                 '  G_I = nondet_int(); G_J = nondet_int(); G_ONLY = nondet_int(); G_TWO = nondet_bool(); G_ONE = nondet_bool(); G_AM1 = nondet_bool(); G_NONE = nondet_bool();\n'
-                                 '  %s(&P);' % fn + CANARY + '}\n')
-        kw = dict(common); kw['pre_text'] = hdecl2
-        extra = dict(unwindset=loops_unwind([('verif_find', 6)])) if nm == 'is_draw' else {}
-        out.append(Job(nm, TUS7, [fn], h, 'h_h', contracts={fn: cc}, loopc=lc, enforce=fn, loop_contracts=True, timeout=2400, expect=['loop_invariant_step'],
-                       replay=REPLAY_HIST if nm != 'is_draw' else None, route='loop contract (unbounded): the scan of the key history',
-                       note=nm + ': answers true when the ghost-witnessed earlier occurrences exist, false when all earlier entries (but at most one) differ - all earlier positions are scanned', **dict(kw, **extra)))
+        for case, assume in (('witnessed', '__CPROVER_assume((G_ONE || G_TWO) && !G_NONE && !G_AM1);'), ('absent', '__CPROVER_assume(!G_ONE && !G_TWO);')):
+            h = HSPEC + ALLD + ND + ('void h_h(void) { struct Position P = nondet_Position(); W_P = P;\n'
+                                     '  G_I = nondet_int(); G_J = nondet_int(); G_ONLY = nondet_int(); G_TWO = nondet_bool(); G_ONE = nondet_bool(); G_AM1 = nondet_bool(); G_NONE = nondet_bool();\n'
+                                     '  ' + assume + '\n'
+                                     '  %s(&P);' % fn + CANARY + '}\n')
+            kw = dict(common); kw['pre_text'] = hdecl2
+            out.append(Job(nm + '/' + case, TUS7, [fn], h, 'h_h', contracts={fn: cc}, loopc=lc, enforce=fn, loop_contracts=True, timeout=2400, expect=['loop_invariant_step'], backend='cadical',
+                           replay=REPLAY_HIST, route='loop contract (unbounded): the scan of the key history',
+                           note=nm + ': answers true when the ghost-witnessed earlier occurrences exist, false when all earlier entries (but at most one) differ - all earlier positions are scanned; case: ' + case, **kw))
     return out
